@@ -3,12 +3,17 @@
 
    Vocabulary (Model/Job.v, Model/JobSched.v).  [step] is ONE atomic step of one call of
    Task / newJobID / handle / Cancel / Wait / IsDone / Jobs / Job / hasJob / accept / frag: one
-   critical section of Session.lock or one unlocked access; the same [step] is what `check`
-   evaluates on every generated case (through [apply_op], theorem C14_solo_is_schedule).
-   A history is a list of events [Spawn o] (a new thread starts operation o) and [Run t]
-   (thread t takes its next atomic step); [run es] executes a history from the empty session.
-   Every theorem quantifies over ALL histories: any number of threads, any multiset of
-   operations, any interleaving, any length. *)
+   read-locked section of Session.lock, one unlocked access, or ONE WRITE inside the write-locked
+   section of handle / Cancel (Wait, IsDone and whoever looks at Status / Error / Result afterwards
+   read without the lock, so the order of those writes is observable).  [held s] is what is left of
+   the write-locked section in progress; steps that need the lock stutter meanwhile.  The same
+   [step] is what `check` evaluates on every generated case (through [apply_op] and [check_sched];
+   theorem C14_solo_is_schedule).  A history is a list of events [Spawn o] (a new thread starts
+   operation o) and [Run t] (thread t takes its next atomic step); [run es] executes a history
+   from the empty session.  Every theorem quantifies over ALL histories: any number of threads,
+   any multiset of operations, any interleaving, any length.
+   pending = done open; released = done closed or nil (waiters return, IsDone says true);
+   finished = done nil. *)
 From XMT Require Import Base.Prelude Model.JobSched Model.Job Proofs.Job.
 
 (* ---- done_closed_once: nothing panics ------------------------------------------------------ *)
@@ -23,45 +28,65 @@ Proof. exact run_no_panic. Qed.
 Print Assumptions C14_no_panic.
 
 (* ---- waiters_released ------------------------------------------------------------------------ *)
-(* In every reachable state, a job that has left the table (and was not overwritten by a
-   concurrent Task, see the finding below) has done = nil, and a thread blocked in Wait on it
-   returns at its very next step. *)
-Theorem C14_waiters_released : forall es c h j t p,
-  run es = Ok c -> getj (snd c) h = Some j -> jorph j = false -> ~ tracked (snd c) h ->
-  finished (snd c) h /\
-  (nth_error (fst c) t = Some p -> p = PW0 h \/ p = PW1 h ->
-   exec step init_pc (Run t) c = Ok (upd (fst c) t (PDone RUnit), snd c)).
+(* In every reachable state in which no write-locked section is in progress, a job that has left
+   the table (and was not overwritten by a concurrent Task, see the finding below) has done = nil. *)
+Theorem C14_waiters_released : forall es c h j,
+  run es = Ok c -> held (snd c) = None -> getj (snd c) h = Some j -> jorph j = false -> ~ tracked (snd c) h ->
+  finished (snd c) h.
 Proof. exact waiters_released. Qed.
 Print Assumptions C14_waiters_released.
 
+(* A thread blocked in Wait on a released job returns at its next step (or, if it had not yet
+   loaded done, at the one after). *)
+Theorem C14_waiter_returns : forall es c h t p,
+  run es = Ok c -> released (snd c) h -> nth_error (fst c) t = Some p -> p = PW0 h \/ p = PW1 h ->
+  exec step init_pc (Run t) c = Ok (upd (fst c) t (PDone RUnit), snd c) \/
+  (exec step init_pc (Run t) c = Ok (upd (fst c) t (PW1 h), snd c) /\
+   exec step init_pc (Run t) (upd (fst c) t (PW1 h), snd c) = Ok (upd (fst c) t (PDone RUnit), snd c)).
+Proof. exact waiter_returns. Qed.
+Print Assumptions C14_waiter_returns.
+
 (* Wait never returns early: a thread started as Wait(h) on an existing job, at any point of any
-   history, has returned only if the job is finished. *)
-Theorem C14_wait_returns_only_when_finished : forall es1 es2 c1 c2 h r,
+   history, has returned only if the job is released. *)
+Theorem C14_wait_returns_only_when_released : forall es1 es2 c1 c2 h r,
   run es1 = Ok c1 -> (h < length (jobs (snd c1)))%nat ->
   run_from c1 (Spawn (OWait h) :: es2) = Ok c2 ->
-  nth_error (fst c2) (length (fst c1)) = Some (PDone r) -> finished (snd c2) h.
-Proof. exact wait_returns_only_finished. Qed.
-Print Assumptions C14_wait_returns_only_when_finished.
+  nth_error (fst c2) (length (fst c1)) = Some (PDone r) -> released (snd c2) h.
+Proof. exact wait_returns_only_released. Qed.
+Print Assumptions C14_wait_returns_only_when_released.
 
-(* IsDone answers true only for a finished job. *)
-Theorem C14_isdone_true_only_when_finished : forall es1 es2 c1 c2 h,
+(* IsDone answers true only for a released job. *)
+Theorem C14_isdone_true_only_when_released : forall es1 es2 c1 c2 h,
   run es1 = Ok c1 -> (h < length (jobs (snd c1)))%nat ->
   run_from c1 (Spawn (OIsDone h) :: es2) = Ok c2 ->
-  nth_error (fst c2) (length (fst c1)) = Some (PDone (RBool true)) -> finished (snd c2) h.
-Proof. exact isdone_true_finished. Qed.
-Print Assumptions C14_isdone_true_only_when_finished.
+  nth_error (fst c2) (length (fst c1)) = Some (PDone (RBool true)) -> released (snd c2) h.
+Proof. exact isdone_true_only_released. Qed.
+Print Assumptions C14_isdone_true_only_when_released.
 
-(* Finished is for ever (the channel is released once and stays released). *)
-Theorem C14_finished_forever : forall es1 es2 c1 c2 h,
-  run es1 = Ok c1 -> run_from c1 es2 = Ok c2 -> finished (snd c1) h -> finished (snd c2) h.
-Proof. exact finished_forever. Qed.
-Print Assumptions C14_finished_forever.
+(* Released is for ever (the channel is closed once and stays closed / nil). *)
+Theorem C14_released_forever : forall es1 es2 c1 c2 h,
+  run es1 = Ok c1 -> run_from c1 es2 = Ok c2 -> released (snd c1) h -> released (snd c2) h.
+Proof. exact released_forever. Qed.
+Print Assumptions C14_released_forever.
+
+(* ---- released implies final ------------------------------------------------------------------ *)
+(* Histories of the operations of the property (everything but accept / frag).  In ANY reachable
+   state, also in the middle of somebody's write-locked section: if done of a job is no longer
+   open (so a reader may be told "done"), its Status is final, and Status, Result, Error are the
+   same at the end of every continuation.  The outcome is written before it is published. *)
+Theorem C14_released_implies_final : forall es1 es2 c1 c2 h j,
+  forallb c14_ev (es1 ++ es2) = true -> run es1 = Ok c1 -> run_from c1 es2 = Ok c2 ->
+  getj (snd c1) h = Some j -> jdone j <> Open ->
+  final (jstatus j) /\
+  exists j', getj (snd c2) h = Some j' /\ outcome j' = outcome j /\ jdone j' <> Open.
+Proof. exact released_implies_final. Qed.
+Print Assumptions C14_released_implies_final.
 
 (* ---- leaves_table --------------------------------------------------------------------------- *)
-(* A finished job is in the table under no number; whatever the table holds is pending. *)
+(* A released job is in the table under no number; whatever the table holds is pending. *)
 Theorem C14_leaves_table : forall es c h,
   run es = Ok c ->
-  (finished (snd c) h -> ~ tracked (snd c) h) /\ (tracked (snd c) h -> pending (snd c) h).
+  (released (snd c) h -> ~ tracked (snd c) h) /\ (tracked (snd c) h -> pending (snd c) h).
 Proof. exact leaves_table. Qed.
 Print Assumptions C14_leaves_table.
 
@@ -75,29 +100,30 @@ Proof. exact cancel_returns_finished. Qed.
 Print Assumptions C14_cancel_finishes.
 
 (* ---- status_first_event ---------------------------------------------------------------------- *)
-(* Histories of the operations of the property (everything but accept / frag).  Take the step of
-   thread t after which job h is finished for the first time (it was pending before): that
-   thread is in the critical section of a result for h (status completed / error, Result = that
-   packet) or of a Cancel of h (status canceled, no Result); the job has exactly that status
-   and result, is out of the table, and whatever history follows it is still the very same job
-   record at the end. *)
+(* Take the step of thread t after which job h is released for the first time (it was pending
+   before): the thread is inside a write-locked section (PCS) whose next write [k] is the
+   close(done) of a result for h (status completed / error as the packet's flag says, Result =
+   that packet) or of a Cancel of h (status canceled, no Result); the job already has exactly
+   that status and result, is out of the table, and at the end of whatever history follows
+   Status / Result / Error are the same. *)
 Theorem C14_status_first_event : forall es1 t es2 c1 c2 c3 h,
   forallb c14_ev (es1 ++ Run t :: es2) = true ->
   run es1 = Ok c1 -> exec step init_pc (Run t) c1 = Ok c2 -> run_from c2 es2 = Ok c3 ->
-  pending (snd c1) h -> finished (snd c2) h ->
-  exists p st r j, nth_error (fst c1) t = Some p /\ commit p = Some (h, st, r) /\
+  pending (snd c1) h -> released (snd c2) h ->
+  exists r k st res j j3, nth_error (fst c1) t = Some (PCS r) /\ held (snd c1) = Some k /\
+    publishes k = Some (h, st, res) /\
     getj (snd c2) h = Some j /\ jstatus j = st /\ final st /\
-    jres j = match r with Some tag => tag | None => 0 end /\
-    getj (snd c3) h = Some j /\ ~ tracked (snd c3) h.
+    jres j = match res with Some tag => tag | None => 0 end /\
+    getj (snd c3) h = Some j3 /\ outcome j3 = outcome j /\ released (snd c3) h /\ ~ tracked (snd c3) h.
 Proof. exact status_first_event. Qed.
 Print Assumptions C14_status_first_event.
 
-(* In every reachable state of such histories a job is pending with status waiting and no
-   result, or finished with a final status. *)
+(* In every reachable state of such histories: a released job has a final status; a pending job
+   that is not the one inside somebody's write-locked section has status waiting and no result. *)
 Theorem C14_status_pending_or_final : forall es c h j,
   forallb c14_ev es = true -> run es = Ok c -> getj (snd c) h = Some j ->
-  (pending (snd c) h /\ jstatus j = StWaiting /\ jres j = 0 /\ jerr j = false) \/
-  (finished (snd c) h /\ final (jstatus j)).
+  (jdone j <> Open -> final (jstatus j)) /\
+  (in_progress (snd c) h = false -> jdone j = Open -> jstatus j = StWaiting /\ jres j = 0 /\ jerr j = false).
 Proof. exact status_pending_final. Qed.
 Print Assumptions C14_status_pending_or_final.
 
@@ -109,30 +135,49 @@ Proof. exact accept_overwrites_final_status. Qed.
 Print Assumptions C14_accept_race_observation.
 
 (* ---- unknown_result_ignored ------------------------------------------------------------------ *)
-(* Any step, at any time, of a result-arrival thread (packet: well-formed flag wf, job number
-   id, error flag, tag) either changes nothing at all, or the packet is well formed, id >= 2,
-   the table holds a pending job under id at that very moment, and exactly that job is
-   finished with the packet's status and result and taken out of the table. *)
-Theorem C14_result_attribution : forall es1 es2 c1 c2 c3 wf id err tag,
-  run es1 = Ok c1 -> run_from c1 (Spawn (OHandle wf id err tag) :: es2) = Ok c2 ->
+(* Any step, at any time, of a result-arrival thread (packet: well-formed flag wf, job number id,
+   error flag, tag, payload) that is not yet inside its write-locked section either changes
+   nothing at all, or the packet is well formed, id >= 2, the lock is free, the table holds a
+   pending job under id at that very moment, and the step takes the lock to finish exactly that
+   job with this packet. *)
+Theorem C14_result_attribution : forall es1 es2 c1 c2 c3 wf id err tag pl,
+  run es1 = Ok c1 -> run_from c1 (Spawn (OHandle wf id err tag pl) :: es2) = Ok c2 ->
+  (forall r, nth_error (fst c2) (length (fst c1)) <> Some (PCS r)) ->
   exec step init_pc (Run (length (fst c1))) c2 = Ok c3 ->
   snd c3 = snd c2 \/
-  (wf = true /\ 2 <= id /\ exists h j,
+  (wf = true /\ 2 <= id /\ held (snd c2) = None /\ exists h j,
      lookup id (table (snd c2)) = Some h /\ getj (snd c2) h = Some j /\ jdone j = Open /\
-     snd c3 = set_table (setj (snd c2) h (fin_job j (if err then StError else StCompleted) tag err))
-                        (remove id (table (snd c2)))).
+     snd c3 = set_held (snd c2) (Some (HRes h err tag pl))).
 Proof. exact result_attribution_run. Qed.
 Print Assumptions C14_result_attribution.
 
+(* ... the write-locked section entered for job h writes job h only ... *)
+Theorem C14_critical_section_own_job : forall es c t r k c' h2,
+  run es = Ok c -> nth_error (fst c) t = Some (PCS r) -> held (snd c) = Some k ->
+  exec step init_pc (Run t) c = Ok c' -> h2 <> cs_job k -> getj (snd c') h2 = getj (snd c) h2.
+Proof. exact cs_writes_own_job. Qed.
+Print Assumptions C14_critical_section_own_job.
+
 (* ... in particular a result whose number is not in the table (unknown, already completed,
    cancelled), or that is malformed, or numbered 0 / 1, changes no job and not the table. *)
-Theorem C14_unknown_result_ignored : forall es1 es2 c1 c2 c3 wf id err tag,
-  run es1 = Ok c1 -> run_from c1 (Spawn (OHandle wf id err tag) :: es2) = Ok c2 ->
+Theorem C14_unknown_result_ignored : forall es1 es2 c1 c2 c3 wf id err tag pl,
+  run es1 = Ok c1 -> run_from c1 (Spawn (OHandle wf id err tag pl) :: es2) = Ok c2 ->
+  (forall r, nth_error (fst c2) (length (fst c1)) <> Some (PCS r)) ->
   exec step init_pc (Run (length (fst c1))) c2 = Ok c3 ->
   mem id (table (snd c2)) = false \/ wf = false \/ id < 2 ->
   snd c3 = snd c2.
 Proof. exact unknown_result_ignored_run. Qed.
 Print Assumptions C14_unknown_result_ignored.
+
+(* An error-flagged result ends with Status error whatever its payload; Error is empty exactly
+   when the payload starts with the class byte 0 (shapes evaluated: empty string, the single zero
+   byte, empty payload, truncated headers / bodies, a bad class byte, a full string). *)
+Theorem C14_error_text_shapes :
+  err_nonempty [0] = false /\ err_nonempty [0; 9; 9] = false /\ err_nonempty [] = true /\
+  err_nonempty [1] = true /\ err_nonempty [1; 4; 98] = true /\ err_nonempty [1; 0] = true /\
+  err_nonempty [1; 4; 98; 111; 111; 109] = true /\ err_nonempty [3; 0] = true /\ err_nonempty [200] = true.
+Proof. exact err_nonempty_shapes. Qed.
+Print Assumptions C14_error_text_shapes.
 
 (* ---- job_id_fresh ----------------------------------------------------------------------------- *)
 (* newJobID: whatever the random draws, the number returned is 0 (refusal: Task then fails) or
@@ -164,7 +209,7 @@ Print Assumptions C14_task_no_reuse_partial.
 
 Theorem C14_tracked_iff_pending_partial : forall es c h,
   tasks_serial cfg0 es -> run es = Ok c ->
-  ~ orphaned (snd c) h /\ (tracked (snd c) h <-> pending (snd c) h).
+  ~ orphaned (snd c) h /\ (in_progress (snd c) h = false -> (tracked (snd c) h <-> pending (snd c) h)).
 Proof. exact serial_tracked. Qed.
 Print Assumptions C14_tracked_iff_pending_partial.
 
@@ -182,7 +227,7 @@ Print Assumptions C14_task_id_race_refuted.
    "spawn the operation, let it run alone" of the same [step]. *)
 Theorem C14_solo_is_schedule : forall o s r s' (ps : list pc),
   apply_op o s = Ok (r, s') ->
-  exists p', run_from (ps, s) (Spawn o :: repeat (Run (length ps)) 8) = Ok (ps ++ [p'], s') /\
+  exists p', run_from (ps, s) (Spawn o :: repeat (Run (length ps)) 16) = Ok (ps ++ [p'], s') /\
              (p' = PDone r \/ r = RBlocked).
 Proof. exact solo_is_schedule. Qed.
 Print Assumptions C14_solo_is_schedule.
@@ -204,7 +249,7 @@ Print Assumptions C14_pinned_cancel_status_refuted.
 Example C14_nonvacuous_cancel_first :
   run race3_hist =
   Ok ([PDone (RJob 0%nat); PDone (RBool false); PDone RUnit; PDone RUnit],
-      mkSess [mkJob 7 StCanceled Nil 0 false 0 false] []).
+      mkSess [mkJob 7 StCanceled Nil 0 false 0 false] [] None).
 Proof. exact race3_result. Qed.
 Print Assumptions C14_nonvacuous_cancel_first.
 
@@ -212,6 +257,16 @@ Print Assumptions C14_nonvacuous_cancel_first.
 Example C14_nonvacuous_result_first :
   run race3b_hist =
   Ok ([PDone (RJob 0%nat); PDone (RBool true); PDone RUnit; PDone RUnit],
-      mkSess [mkJob 7 StError Nil 1 true 0 false] []).
+      mkSess [mkJob 7 StError Nil 1 true 0 false] [] None).
 Proof. exact race3b_result. Qed.
 Print Assumptions C14_nonvacuous_result_first.
+
+(* an error-flagged result with EMPTY text; an IsDone reader that looks between close(done) and
+   done = nil is told "done" while the result thread is still inside its write-locked section and a
+   Cancel waits for the lock: what the reader can see is already final (Status error, Error empty) *)
+Example C14_nonvacuous_reader_mid_section :
+  run reader_hist =
+  Ok ([PDone (RJob 0%nat); PCS (RBool true); PDone (RBool true); PC1 0%nat],
+      mkSess [mkJob 7 StError Closed 1 false 0 false] [] (Some (HNil 0%nat))).
+Proof. exact reader_result. Qed.
+Print Assumptions C14_nonvacuous_reader_mid_section.
